@@ -638,6 +638,11 @@ class ProxyManager(PoolManager):
             headers_["Host"] = netloc
 
         if headers:
+            # Header names are case-insensitive: an automatic header gives way
+            # to the caller's one whatever its spelling.
+            supplied = {name.lower() for name in headers}
+            for name in [n for n in headers_ if n.lower() in supplied]:
+                del headers_[name]
             headers_.update(headers)
         return headers_
 
